@@ -38,7 +38,7 @@ Proof.
 Qed.
 
 Section Refine.
-  Variable pool : list ref.
+  Variable pool : list tkey.
   Variable tst : nat -> nat -> bool.
   Let n := List.length pool.
   Let sk := same_key pool.
